@@ -219,13 +219,19 @@ func normalizeToIntString(n numberParts) (string, bool) {
 		// unnecessarily constructing a large byte slice that may simply fail
 		// later on.
 		const maxDigits = 20 // Max uint64 value has 20 decimal digits.
-		if intpSize+exp > maxDigits {
+		// Without an integer part, leading zeros of the fraction are not
+		// digits of the result (0.001e3 is 1).
+		frac := n.frac
+		if intpSize == 0 {
+			frac = bytes.TrimLeft(frac, "0")
+		}
+		if intpSize+exp-(fracSize-len(frac)) > maxDigits {
 			return "", false
 		}
 
 		// Set cap to make a copy of integer part when appended.
 		num = n.intp[:len(n.intp):len(n.intp)]
-		num = append(num, n.frac...)
+		num = append(num, frac...)
 		for i := 0; i < exp-fracSize; i++ {
 			num = append(num, '0')
 		}
